@@ -27,8 +27,8 @@ func plan(prop, tier string) []Part {
 	case "C08":
 		return []Part{
 			{Name: "lattice", N: q(tier, 16, 16), Chunk: 1, Timeout: to},
-			{Name: "random", N: q(tier, 32, 640), Chunk: 2, Timeout: to},
-			{Name: "mono", N: q(tier, 32, 320), Chunk: 2, Timeout: to},
+			{Name: "random", N: q(tier, 32, 3000), Chunk: 2, Timeout: to},
+			{Name: "mono", N: q(tier, 32, 1600), Chunk: 2, Timeout: to},
 		}
 	case "C01":
 		ps := []Part{
@@ -49,8 +49,13 @@ func plan(prop, tier string) []Part {
 			{Name: "nq", N: q(tier, 400, 8000), Chunk: 40, Procs: []int{2, 16, 4, 1}, Timeout: to},
 			{Name: "err", N: q(tier, 200, 4000), Chunk: 40, Procs: []int{2, 16, 4, 1}, Timeout: to},
 		}
-	case "C03", "C13", "C14":
+	case "C03", "C13":
 		return []Part{{Name: "mixed", N: q(tier, 800, 16000), Chunk: 40, Procs: []int{2, 16, 4, 1}, Timeout: to}}
+	case "C14":
+		return []Part{
+			{Name: "mixed", N: q(tier, 800, 16000), Chunk: 40, Procs: []int{2, 16, 4, 1}, Timeout: to},
+			{Name: "err", N: q(tier, 200, 4000), Chunk: 40, Procs: []int{2, 16, 4, 1}, Timeout: to},
+		}
 	case "C16":
 		return []Part{
 			{Name: "mixed", N: q(tier, 800, 16000), Chunk: 40, Procs: []int{2, 16, 4, 1}, Timeout: to},
@@ -61,6 +66,7 @@ func plan(prop, tier string) []Part {
 			{Name: "mixed", N: q(tier, 600, 12000), Chunk: 40, Procs: []int{2, 16, 4, 1}, Timeout: to},
 			{Name: "nq", N: q(tier, 300, 6000), Chunk: 40, Procs: []int{2, 16, 4, 1}, Timeout: to},
 			{Name: "err", N: q(tier, 200, 4000), Chunk: 40, Procs: []int{2, 16, 4, 1}, Timeout: to},
+			{Name: "queue", N: q(tier, 120, 2400), Chunk: 10, Procs: []int{2, 16, 4, 1}, Timeout: to},
 		}
 	case "C10":
 		return []Part{
@@ -107,18 +113,18 @@ func plan(prop, tier string) []Part {
 			{Name: "pty", N: q(tier, 150, 3000), Chunk: 30, Procs: []int{2, 16, 4}, Timeout: to},
 		}
 	case "C19":
-		return []Part{{Name: "script", N: q(tier, 12, 300), Chunk: 1, Timeout: to}}
+		return []Part{{Name: "script", N: q(tier, 12, 1500), Chunk: 1, Timeout: to}}
 	case "C20":
 		return []Part{
-			{Name: "size", N: q(tier, 8, 200), Chunk: 1, Timeout: to},
-			{Name: "pct", N: q(tier, 5, 100), Chunk: 1, Timeout: to},
-			{Name: "time", N: q(tier, 3, 60), Chunk: 1, Timeout: to},
-			{Name: "ewma", N: q(tier, 4, 80), Chunk: 1, Timeout: to},
+			{Name: "size", N: q(tier, 8, 1000), Chunk: 1, Timeout: to},
+			{Name: "pct", N: q(tier, 5, 500), Chunk: 1, Timeout: to},
+			{Name: "time", N: q(tier, 3, 300), Chunk: 1, Timeout: to},
+			{Name: "ewma", N: q(tier, 4, 400), Chunk: 1, Timeout: to},
 		}
 	case "C09":
 		ps := []Part{
 			{Name: "exh3", N: 20, Chunk: 1, Timeout: to},
-			{Name: "random", N: q(tier, 16, 320), Chunk: 1, Timeout: to},
+			{Name: "random", N: q(tier, 16, 2000), Chunk: 1, Timeout: to},
 		}
 		if tier == "thorough" {
 			ps = append(ps, Part{Name: "exh4", N: 20, Chunk: 1, Timeout: 30 * time.Minute})
@@ -126,11 +132,11 @@ func plan(prop, tier string) []Part {
 		return ps
 	case "C07":
 		return []Part{
-			{Name: "grid", N: q(tier, 16, 160), Chunk: 1, Timeout: to},
-			{Name: "fill", N: q(tier, 16, 400), Chunk: 1, Timeout: to},
-			{Name: "spin", N: q(tier, 4, 40), Chunk: 1, Timeout: to},
-			{Name: "decor", N: q(tier, 8, 100), Chunk: 1, Timeout: to},
-			{Name: "row", N: q(tier, 16, 400), Chunk: 1, Timeout: to},
+			{Name: "grid", N: q(tier, 16, 800), Chunk: 1, Timeout: to},
+			{Name: "fill", N: q(tier, 16, 2000), Chunk: 1, Timeout: to},
+			{Name: "spin", N: q(tier, 4, 200), Chunk: 1, Timeout: to},
+			{Name: "decor", N: q(tier, 8, 500), Chunk: 1, Timeout: to},
+			{Name: "row", N: q(tier, 16, 2000), Chunk: 1, Timeout: to},
 		}
 	}
 	return nil
